@@ -131,13 +131,17 @@ def texts(tier):
     out = []
     junk_int = ["", "a", "1a", "1.0", "--1", "0x", "1e", "-", "1-", "1 2", "x10", "1e3", "0b1", "1,0", "1u1"]
     silent_num = [" 1", "1 ", "\t1\n", "1_0", "٣", "１", "+1", "007", "-0", "-007", "0x10", "0X1F", "-0x10", "nan", "NaN", "inf", "-inf",
-                  "Infinity", "+inf", ".5", "5.", "1e400", "-1e400", "1_0.0", " 1.0 ", "1u", "300U"]
+                  "Infinity", "+inf", ".5", "5.", "1_0.0", " 1.0 ", "1u", "300U"]
+    # decimal text whose value does not fit the double range: "never a wrapped or clamped value"
+    over_double = ["1e400", "-1e400", "1e309", "-1e309", "1.7976931348623159e308", "-1.7976931348623159e308", "2e308", "1" + "0" * 400, "-1" + "0" * 400, "1E+400"]
     for target in ("int", "uint"):
         out += [(target, s, "junk") for s in junk_int]
         out += [(target, s, "silent") for s in silent_num]
         out += [(target, str(v), "decimal") for v in nums]
     out += [("double", s, "junk") for s in ["", "a", "abc", "1e", "--1", "1a", "1.0.0", "e5", ".", "-", "1e+", "1,5", "1.5f"]]
     out += [("double", s, "silent") for s in silent_num]
+    out += [("double", s, "range") for s in over_double]
+    out += [(target, s, "junk") for target in ("int", "uint") for s in over_double if "e" in s.lower()]
     out += [("double", s, "decimal") for s in ["0", "0.0", "-0.0", "123", "123.456", "-987.654", "6.02214e23", "1.38e-23", "-84.32e7", "-5.43e-21", "1E5",
                                                "5e-324", "1.7976931348623157e308", "0.30000000000000004", "9223372036854775808", "1e-400"]]
     out += [("timestamp", s, "no-date") for s in ["", "abc", "T", "Z", "-"]]
@@ -150,7 +154,12 @@ def texts(tier):
     out += [("timestamp", s, "silent") for s in ["2020-01-01T00:00:00-00:60", "2020-01-01T00:00:00+05:99"]]
     out += [("timestamp", s, "silent") for s in ["1-01-01T00:00:00Z", "999-12-31T23:59:59Z", "2000-02-29", "2000-02-29T00:00:00", "20000229T000000Z",
                                                  "2000-02-29 00:00:00Z", "2000-02-29t00:00:00z", "2000-02-29T00:00:00+0530", " 2000-02-29T00:00:00Z",
-                                                 "2016-12-31T23:59:60Z", "0001-01-01T00:00:00+05:30", "9999-12-31T23:59:59-00:01", "2000-02-29T00:00Z"]]
+                                                 "2016-12-31T23:59:60Z", "2000-02-29T00:00Z"]]
+    # the written fields are in range, the instant is not
+    out += [("timestamp", s, "instant-out-of-range") for s in ["0001-01-01T00:00:00+05:30", "9999-12-31T23:59:59-00:01", "0001-01-01T00:00:00+00:01", "0001-01-01T13:59:59+14:00",
+                                                               "9999-12-31T23:59:59-14:00", "9999-12-31T10:00:00-14:00", "0001-01-01T00:59:59+01:00", "9999-12-31T23:00:00-01:00"]]
+    # ... and the mirror cases, where the offset keeps the instant inside: values
+    out += [("timestamp", s, "rfc3339") for s in ["0001-01-01T14:00:00+14:00", "9999-12-31T09:59:59-14:00", "0001-01-01T01:00:00+01:00", "9999-12-31T22:59:59-01:00"]]
     for t in timestamps("quick"):
         if timetext.SEC_MIN <= timetext.instant(*t) <= timetext.SEC_MAX:
             out.append(("timestamp", timetext.fmt(*t), "rfc3339"))
